@@ -579,6 +579,13 @@ func (dsc *dataStoreCommand) bitfieldWrite(keyName string, ops []*bitfieldOp) (o
 	}
 	length = (length / 8) + 1
 
+	const maxStringLength = 512 * 1024 * 1024
+	if length < 0 || length > maxStringLength {
+		// strings are limited to 512 MB, so bits beyond 2^32 cannot be addressed
+		output.data = respErrorString("ERR bit offset is not an integer or out of range")
+		return
+	}
+
 	// get the stored value
 	dsc.lock()
 	defer dsc.unlock()
